@@ -9,6 +9,7 @@ Correspondence: for the transaction journals the first layout's result is also c
 extracted finalize model, whose independence from hash-table order is what Properties_C19.v proves."""
 import hashlib, importlib, os, re, shutil, subprocess
 import lib
+from fractions import Fraction as F
 import xactlib as X
 
 META = dict(
@@ -186,6 +187,21 @@ def run(ctx, n_override=None):
             if rng.random() < 0.4:
                 text += '\n' + X.render_journal(c01.gen_journal(rng))
             tag = 'c20'
+        elif r < 0.86:
+            # several lots of one commodity with the same price and lot date, told apart by their notes only: the order the
+            # reports list them in must come from the lots, not from where they happen to sit in memory
+            lots = []
+            notes = rng.sample(['alpha', 'bravo', 'charlie', 'delta', 'echo', 'foxtrot', 'golf', 'hotel', 'ira', 'taxable'], rng.randrange(3, 9))
+            for k_, note in enumerate(notes):
+                x_ = X.gen_lot_notes(rng)
+                p_ = next(q for q in x_.posts if q.lot is not None)
+                p_.acct, p_.lot, p_.lot_date, p_.lot_note = 'Assets:Broker:X', X.Amt(F(10), 2, '$'), '2020/01/05', note
+                c_ = next(q for q in x_.posts if q.lot is None)
+                c_.amt = X.Amt(-F(10) * p_.amt.value, 2, '$')
+                x_.date = '2020/01/%02d' % (6 + k_)
+                lots.append(x_)
+            text = X.render_journal(lots)
+            tag = 'lots'
         else:
             base = X.render_journal(c01.gen_journal(rng)) if rng.random() < 0.6 else X.render_journal(c09.gen_history(rng)[0])
             text = mutate(rng, base)
@@ -196,6 +212,8 @@ def run(ctx, n_override=None):
         cmd = list(rng.choice(COMMANDS))
         if tag.endswith('+dates') and rng.random() < 0.5:
             cmd = list(rng.choice([['xml'], ['csv'], ['emacs'], ['print'], ['reg', '--aux-date'], ['xml', '--aux-date'], ['print', '--raw']]))
+        if tag == 'lots':
+            cmd = list(rng.choice([['bal', '--lots'], ['reg', '--lots'], ['bal', '--lots', '--flat'], ['bal', '--lot-notes'], ['print'], ['xml'], ['bal', '--lots', '-B']]))
         if tag == 'c20' and rng.random() < 0.5:
             cmd = list(rng.choice([['bal', '--time-report'], ['bal', '--time-report', '--flat'], ['reg'], ['bal', '--day-break']]))
         first = run_case(ctx, res, tag, text, cmd, nlay)
